@@ -891,6 +891,36 @@ fn real_clock_in(dir: &Path, c: &RealClockChild, obs: &mut Obs) -> CaseResult {
         "TZ={:?}, switch at unix {} (offset 0 -> +{} s): a trigger '{} {}' + modulate running since before the switch fired at unix {} and rescheduled to unix {}: local time then is {} s into the hour, not the next multiple of {} {}", c.tz, c.switch, shift, n, c.case.unit, t_before, next_a2, (next_a2 + shift).rem_euclid(3600), n, c.case.unit
     );
     obs.sub_evals += 2;
+    // a record that arrives a third of a second BEFORE the scheduled instant does not fire the trigger (seconds unit:
+    // the wait is short); skipped when the machine oversleeps
+    if unit_s == 1 {
+        let now_f = || std::time::SystemTime::now().duration_since(std::time::UNIX_EPOCH).unwrap().as_secs_f64();
+        let boundary = next_a2 as f64;
+        while now_f() < boundary - 0.35 {
+            std::thread::sleep(std::time::Duration::from_millis(4));
+        }
+        let before = now_f();
+        if before < boundary - 0.15 {
+            fired.lock().unwrap().clear();
+            let _ = catch(|| append_msg(&app, "z"));
+            let after = now_f();
+            if after < boundary - 0.02 {
+                let f = fired.lock().unwrap().clone();
+                ensure!(
+                    f == vec![Ok(false)],
+                    "C16:fires-early",
+                    "TZ={:?}: the trigger is scheduled for unix {}; a record arrived between {:.3} and {:.3} (real clock), i.e. {:.0} ms before that instant, and the trigger answered {:?}", c.tz, next_a2, before, after, (boundary - after) * 1000.0, f
+                );
+                ensure!(trig_a.verif_next_roll_time().timestamp() == next_a2, "C16:fires-early", "TZ={:?}: the schedule moved although the scheduled instant had not come", c.tz);
+                obs.class("real-clock:record-shortly-before-the-scheduled-instant");
+                obs.sub_evals += 1;
+            } else {
+                obs.class("real-clock:overslept(sub-second probe skipped)");
+            }
+        } else {
+            obs.class("real-clock:overslept(sub-second probe skipped)");
+        }
+    }
     obs.nontrivial = true;
     obs.class(format!("real-clock:shift={}s,unit={}", shift, c.case.unit));
     Ok(())
@@ -996,7 +1026,7 @@ pub fn replay(part: &str, case: serde_json::Value) -> Option<CaseResult> {
 pub fn meta() -> EvidenceMeta {
     EvidenceMeta {
         level: "exploration",
-        rule: "one worker process per zone (UTC, two fixed offsets, five POSIX-rule DST zones incl. 30-minute and midnight transitions; thorough adds eight named zones). Layer 1 (schedule function via the guarded wrapper): instants constructed around a feature (second/minute/hour/day/ISO-week/month/year boundary, Feb 28/29, Dec 31, ISO week 53, every DST transition of the zone in a generated year 1970-2100, 9% uniform) with offsets of -2..+2 s (sometimes +-1 h) and sub-second parts 0/1/999999999/random, all seven units, n in 1..60 dense and a sparse set up to 10 000, modulate on/off; oracle: no panic, result strictly after now, and wherever chrono reports a constant UTC offset over [start of the current unit, result] (for modulated schedules, which name a wall-clock boundary: over [now, result]) the result in local wall-clock seconds equals the reference computed with the harness's own proleptic-Gregorian arithmetic (days-from-civil, ISO weeks from first principles): start of unit + n units, or with modulation either reading of 'next multiple of n counted from the start of the enclosing period' (wrap at the period end, or run past it). Part extreme: multipliers from 100 000 to i64::MAX (no-panic and future only). Layer 2 (trigger object, clock override): non-decreasing arrival sequences (bursts, gaps of seconds to a year): fires iff now >= scheduled, reschedules strictly into the future inside [next boundary, + max_random_delay), schedule unchanged between firings. Layer 3: RollingFileAppender + TimeTrigger + fixed window under the driven clock: the first record at/after the boundary is the first record of the new file. Layer 4 (real clock, no override; one child process per case): TZ is a POSIX rule whose daylight-saving time (+7 s ... +1 h) begins two seconds after the case starts; a trigger 'n seconds|minutes + modulate' (n | 60) created after the switch, and one that has been running since before it, must schedule the next multiple of n in local time under the offset now in force. non-trivial = within 2 s of a unit boundary, or leap-day/year-end/week-53 feature, or within 1 h of a DST transition (layer 1); >= 2 firings (layer 2); >= 2 rotations (layer 3)".into(),
+        rule: "one worker process per zone (UTC, two fixed offsets, five POSIX-rule DST zones incl. 30-minute and midnight transitions; thorough adds eight named zones). Layer 1 (schedule function via the guarded wrapper): instants constructed around a feature (second/minute/hour/day/ISO-week/month/year boundary, Feb 28/29, Dec 31, ISO week 53, every DST transition of the zone in a generated year 1970-2100, 9% uniform) with offsets of -2..+2 s (sometimes +-1 h) and sub-second parts 0/1/999999999/random, all seven units, n in 1..60 dense and a sparse set up to 10 000, modulate on/off; oracle: no panic, result strictly after now, and wherever chrono reports a constant UTC offset over [start of the current unit, result] (for modulated schedules, which name a wall-clock boundary: over [now, result]) the result in local wall-clock seconds equals the reference computed with the harness's own proleptic-Gregorian arithmetic (days-from-civil, ISO weeks from first principles): start of unit + n units, or with modulation either reading of 'next multiple of n counted from the start of the enclosing period' (wrap at the period end, or run past it). Part extreme: multipliers from 100 000 to i64::MAX (no-panic and future only). Layer 2 (trigger object, clock override): non-decreasing arrival sequences (bursts, gaps of seconds to a year): fires iff now >= scheduled, reschedules strictly into the future inside [next boundary, + max_random_delay), schedule unchanged between firings. Layer 3: RollingFileAppender + TimeTrigger + fixed window under the driven clock: the first record at/after the boundary is the first record of the new file. Layer 4 (real clock, no override; one child process per case): TZ is a POSIX rule whose daylight-saving time (+7 s ... +1 h) begins two seconds after the case starts; a trigger 'n seconds|minutes + modulate' (n | 60) created after the switch, and one that has been running since before it, must schedule the next multiple of n in local time under the offset now in force; a record arriving 150-350 ms before the scheduled instant must not fire it. non-trivial = within 2 s of a unit boundary, or leap-day/year-end/week-53 feature, or within 1 h of a DST transition (layer 1); >= 2 firings (layer 2); >= 2 rotations (layer 3)".into(),
         assumptions: vec![
             "UTC offsets are taken from chrono (precondition 'offset does not change in between' and construction of instants); the schedule reference itself uses no chrono".into(),
             "modulate: both readings accepted where they differ (the statement's wording admits both)".into(),
